@@ -20,7 +20,13 @@ def build_stream(case):
     for i in range(n):
         rnd = random.Random(seed * 1000003 + i)
         spec = (tuple(rnd.choice(idents)), rnd.randint(lo, hi), rnd.getrandbits(32), rnd.choice(checksums), rnd.random() < 0.7)
-        readouts.append(G.build_readout(spec))
+        ro = G.build_readout(spec)
+        if lo == 0 and hi == 1 and seed % 3 == 0 and i % 5 == 2:
+            # a readout with one very long (but legal) data line, e.g. a hex-coded text message
+            ident_line = ro[: ro.index(b"\n") + 1]
+            long_line = b"0-0:96.13.0(" + bytes(rnd.choice(b"0123456789ABCDEF") for _ in range(rnd.choice([1000, 1030, 1100, 2048, 4000]))) + b")\r\n"
+            ro = G.add_end(ident_line + long_line, spec[3])
+        readouts.append(ro)
     tail = b""
     if tail_cut:
         first = G.build_readout((tuple(idents[0]), max(lo, 1), seed ^ 0x5A5A, checksums[0], True))
@@ -44,8 +50,15 @@ def oracle(case) -> Info:
     reader = dlde.ModeDReader()
     got = []
     chunks = chunks_of(stream, cuts, readouts)
-    for ch in chunks:
-        got.extend(guarded(reader.read, ch, what="ModeDReader.read"))
+    # the harness owns the clock: virtual seconds pass between the calls (a slow serial line, a stalled sender)
+    from vlib import fakeclock
+
+    gap_pattern = ("none", "mixed", "long", "short")[case[2] % 4] if len(chunks) <= 4000 else "none"
+    gaps = fakeclock.gaps_for(len(chunks), gap_pattern, case[2])
+    with fakeclock.FakeClock() as clk:
+        for ch, gap in zip(chunks, gaps):
+            clk.advance(gap)
+            got.extend(guarded(reader.read, ch, what="ModeDReader.read"))
     got_b = [guarded(lambda o=o: o.as_bytes) for o in got]
     if got_b != readouts:
         n = min(len(got_b), len(readouts))
@@ -86,7 +99,7 @@ def oracle(case) -> Info:
     big = len(readouts) >= 30 or len(stream) > 8192
     nt = big and inside >= 1 and in_ident * 10 < max(1, len(cps))
     starts_between = sum(1 for c in cps if c in set(starts))
-    classes = [f"cuts:{cuts[0]}", "big" if big else "small", "tail" if tail else "notail"]
+    classes = [f"cuts:{cuts[0]}", "big" if big else "small", "tail" if tail else "notail", f"gaps:{gap_pattern}"]
     if big and cps and starts_between == 0:
         classes.append("no-call-starts-between-readouts")
     if len(stream) > 100000:
@@ -97,10 +110,12 @@ def oracle(case) -> Info:
 @st.composite
 def case_st(draw):
     idents = draw(st.lists(G.ident_st(), min_size=1, max_size=3))
-    size_class = draw(st.sampled_from(["tiny", "small", "small", "medium", "medium", "large"]))
-    lo, hi = {"tiny": (0, 2), "small": (3, 12), "medium": (8, 40), "large": (60, 200)}[size_class]
-    nmax = {"tiny": 200, "small": 200, "medium": 120, "large": 50}[size_class]
+    size_class = draw(st.sampled_from(["tiny", "small", "small", "medium", "medium", "large", "minimal-many", "minimal-many"]))
+    lo, hi = {"tiny": (0, 2), "small": (3, 12), "medium": (8, 40), "large": (60, 200), "minimal-many": (0, 1)}[size_class]
+    nmax = {"tiny": 200, "small": 200, "medium": 120, "large": 50, "minimal-many": 3000}[size_class]
     n = draw(st.sampled_from([1, 2, 3, 30, 40]) | st.integers(1, nmax))
+    if size_class == "minimal-many":
+        n = draw(st.sampled_from([900, 1000, 1100, 2000, 3000]) | st.integers(1, 3000))  # also > 1000 readouts in ONE read() call
     seed = draw(st.integers(0, 2**31))
     checksums = draw(st.sampled_from([["upper"], ["upper", "none"], ["lower"], ["none"], ["upper", "lower", "none"]]))
     tail_cut = draw(st.sampled_from([0, 0, 1]) | st.integers(0, 5000))
@@ -158,7 +173,8 @@ def build() -> Check:
         level="exploration",
         rule=(
             "Streams of 1..200 well-formed CRLF readouts back to back (1..3 identification lines per stream, 0..200 data lines per readout "
-            "so readouts range from ~15 bytes to ~6 KiB, checksum upper/lower/absent, streams up to several hundred KiB), optionally "
+            "so readouts range from ~15 bytes to ~6 KiB; a class of up to 3000 minimal readouts (so that a single call can return > 1000 of them) "
+            "some of which carry one data line of 1000..4000 characters, checksum upper/lower/absent, streams up to several hundred KiB), optionally "
             "preceded by the tail of a readout, x splittings: single call, bytewise (small streams), random multi-cut, fixed chunk sizes "
             "1..65536 with a drawn initial offset, chunk = first readout's length +-k. Non-trivial = (>=30 readouts or >8 KiB) with at "
             "least one chunk boundary inside a readout and fewer than 1 in 10 boundaries inside an identification line. The class "
@@ -166,6 +182,7 @@ def build() -> Check:
             "each fed its own clean stream with alternating read() calls. Distinct = case hash."
         ),
         assumptions=[
+            "The wall clock (time.monotonic/time/perf_counter) is replaced by a virtual clock; drawn gaps of 0 s .. 1 day pass between read() calls - delivery must not depend on timing.",
             "Readouts are expanded deterministically from drawn (identification lines, size range, seed) so that 100+ KiB streams fit Hypothesis's entropy budget.",
             "Every readout is < 8000 bytes ('well below 8 KiB'); identification text contains neither '/' nor '!' (IEC 62056-21).",
         ],
